@@ -15,7 +15,7 @@ Record case := {
   k_header : list Z;            (* the header this table carries / the format prescribes ([] if none) *)
   k_gz : bool;                  (* gzip target (bytes below are the decompressed content) *)
   k_hist : list session;        (* the writing history (ground truth rows inside) *)
-  k_err : Z;                    (* 0 = no exception; 1 AssertionError; 2 KeyError; 9 other *)
+  k_err : Z;                    (* 0 = ok; 1 AssertionError; 2 KeyError; 8 the caller's table was modified by the write; 9 other *)
   k_written : list Z;           (* file content after the history *)
   k_read_ok : bool;             (* bnp.open(path).read() succeeded *)
   k_read : list row;            (* ... and returned these rows *)
